@@ -11,6 +11,8 @@ import (
 	"os"
 	"sort"
 	"strings"
+	"sync/atomic"
+	"time"
 
 	"github.com/glowlabs-org/gca-backend/glow"
 	"github.com/glowlabs-org/gca-backend/server"
@@ -52,6 +54,7 @@ type Srv struct {
 	T    *Trace
 	Keys map[glow.PublicKey]bool // every public key that appeared in the scenario
 	Full bool                    // emit full snapshots instead of hashes
+	Lost bool                    // a loopback UDP datagram never arrived: the scenario is abandoned (not a finding)
 	seen map[string]bool         // oracle rows already written
 }
 
@@ -121,6 +124,7 @@ func (s *Srv) Boot(now uint32) error {
 
 // bootStart starts the server; returns the server public key in use afterwards.
 func (s *Srv) bootStart() []byte {
+	iter0, rcv0 = atomic.LoadInt64(&udpIter), atomic.LoadInt64(&udpReceived)
 	if err := s.E.Start(); err != nil {
 		return nil
 	}
@@ -151,6 +155,77 @@ func (s *Srv) Dgram(d []byte) string {
 	s.T.Count("dgram:" + obs)
 	s.emit(fmt.Sprintf("srv.dgram now=%d d=%s", now, hx(d)), obs)
 	return obs
+}
+
+// DgramUDP sends the datagram through the real UDP socket (the listener's own
+// length handling is on this path), followed by a marker report for a fresh
+// slot; it waits until the marker has been integrated, then records both.
+func (s *Srv) DgramUDP(d []byte, marker []byte) {
+	now := glow.CurrentTimeslot()
+	_, _, udp := s.E.S.Ports()
+	addr := fmt.Sprintf("127.0.0.1:%d", udp)
+	pre := func(b []byte) {
+		if len(b) >= 80 {
+			id := binary.LittleEndian.Uint32(b[0:4])
+			r, _ := glow.DeserializeReport(b[:80])
+			if ea, ok := s.E.S.VerifSnapshot().Equipment[id]; ok {
+				s.oracle(ea.PublicKey, r.SigningBytes(), r.Signature)
+			}
+		}
+	}
+	pre(d)
+	pre(marker)
+	before := fileLen(s.E.Dir + "/equipment-reports.dat")
+	r0 := atomic.LoadInt64(&udpReceived)
+	sent := int64(1)
+	glow.SendUDPReport(d, addr)
+	// the listener counts every datagram it reads and every handler it launches / finishes
+	// (verif hook points), so no timing assumption is needed to know that both have been dealt with
+	waitUDP := func(n int64) bool {
+		for i := 0; i < 3000; i++ {
+			rc := atomic.LoadInt64(&udpReceived)
+			// the loop is back at its top after the last datagram (so the launch decision has been taken) and every launched handler is done
+			if rc >= r0+n && atomic.LoadInt64(&udpIter)-iter0 == rc-rcv0+1 && atomic.LoadInt64(&udpHandled) == atomic.LoadInt64(&udpLaunched) {
+				return true
+			}
+			time.Sleep(time.Millisecond)
+		}
+		return false
+	}
+	if !waitUDP(sent) {
+		s.T.Line("# udp datagram lost on loopback; pair skipped")
+		s.Lost = true
+		return
+	}
+	mid := fileLen(s.E.Dir + "/equipment-reports.dat")
+	glow.SendUDPReport(marker, addr)
+	if !waitUDP(sent + 1) {
+		s.T.Line("# udp datagram lost on loopback; pair skipped")
+		s.Lost = true
+		return
+	}
+	obs, mobs := "dropped", "dropped"
+	if mid > before {
+		obs = "stored"
+	}
+	if fileLen(s.E.Dir+"/equipment-reports.dat") > mid {
+		mobs = "stored"
+	}
+	s.T.Count("dgram-udp:" + obs)
+	s.T.Line("srv.dgram now=%d d=%s => %s", now, hx(d), obs)
+	s.emit(fmt.Sprintf("srv.dgram now=%d d=%s", now, hx(marker)), mobs)
+}
+
+var udpReceived, udpLaunched, udpHandled, udpIter int64
+
+// iter0/rcv0: counter values when the current server's listener started (a new listener starts a new loop)
+var iter0, rcv0 int64
+
+func init() {
+	server.VerifSetPoint("udp-received", func() { atomic.AddInt64(&udpReceived, 1) })
+	server.VerifSetPoint("udp-launch", func() { atomic.AddInt64(&udpLaunched, 1) })
+	server.VerifSetPoint("udp-handled", func() { atomic.AddInt64(&udpHandled, 1) })
+	server.VerifSetPoint("udp-iter", func() { atomic.AddInt64(&udpIter, 1) })
 }
 
 func fileLen(p string) int64 {
@@ -377,11 +452,15 @@ func (s *Srv) Migrate(em server.EquipmentMigration) string {
 	snap := s.E.S.VerifSnapshot()
 	s.Keys[em.NewGCA] = true
 	s.oracle(snap.GCAKey, em.SigningBytes(), em.Signature)
-	var srv []byte
+	var srv []string
 	for _, a := range em.NewServers {
 		a := a
 		s.oracle(em.NewGCA, a.SigningBytes(), a.GCAAuthorization)
-		srv = append(srv, a.Serialize()...)
+		b := 0
+		if a.Banned {
+			b = 1
+		}
+		srv = append(srv, fmt.Sprintf("%s,%d,%s,%d,%d,%d,%s", hx(a.PublicKey[:]), b, hx([]byte(a.Location)), a.HttpPort, a.TcpPort, a.UdpPort, hx(a.GCAAuthorization[:])))
 	}
 	st, _, err := s.E.PostJSON("/api/v1/equipment-migrate", em)
 	obs := "refused"
@@ -391,7 +470,7 @@ func (s *Srv) Migrate(em server.EquipmentMigration) string {
 		obs = "ok"
 	}
 	s.T.Count("migrate:" + obs)
-	s.emit(fmt.Sprintf("srv.migrate eq=%s gca=%s id=%d servers=%s sig=%s", hx(em.Equipment[:]), hx(em.NewGCA[:]), em.NewShortID, hx(srv), hx(em.Signature[:])), obs)
+	s.emit(fmt.Sprintf("srv.migrate eq=%s gca=%s id=%d slist=%s sig=%s", hx(em.Equipment[:]), hx(em.NewGCA[:]), em.NewShortID, strings.Join(srv, ";"), hx(em.Signature[:])), obs)
 	return obs
 }
 
